@@ -271,3 +271,164 @@ def _class_cell(self, ex, st, cls, attr):
 
 MocloModels.class_cell = _class_cell
 MocloModels.instance_attr = _instance_attr
+
+
+# ---------------------------------------------------------------------- abstract entities (assembly level)
+# An entity handed to the assembly is identified by an integer; everything it reports is a function of that
+# identity (C06): valid(e), ostart(e), oend(e), frag(e) (text of target_sequence()), eid(e) (record id),
+# efeats(e) (feature table of the fragment).  These names abbreviate the closed forms of the entity contracts.
+ABSENT = -1
+
+
+def abstract_entity(st, symbase, ident):
+    e = VObj(symbase)
+    st.set_inplace(e, "ident", VT(ident))
+    rec = VObj("CircularRecord")
+    st.set_inplace(rec, "ident", VT(tm.app("erecord", INT, ident)))
+    st.set_inplace(rec, "id", VT(tm.app("eid", STR, ident)))
+    st.set_inplace(rec, "entity", VT(ident))
+    st.set_inplace(e, "record", rec)
+    return e
+
+
+def _as_elem(self, ex, st, v, sort):
+    if isinstance(v, VObj) and st.get(v, "ident") is not None and sort == INT:
+        return st.get(v, "ident").t
+    return BioModels.as_elem(self, ex, st, v, sort)
+
+
+def _from_elem(self, ex, st, t):
+    if t.sort == INT and getattr(self, "elem_kind", None):
+        return abstract_entity(st, self.elem_kind, t)
+    return VT(t)
+
+
+MocloModels.as_elem = _as_elem
+MocloModels.from_elem = _from_elem
+MocloModels.elem_kind = None
+
+# ---------------------------------------------------------------------- python dict with symbolic Seq keys
+MAP = tm.arr_sort(STR, INT)
+
+
+def map_arr(st, d):
+    a = st.get(d, "arr")
+    if a is not None:
+        return a.t
+    if st.get(d, "items"):
+        raise Unsupported("dict with both constant and symbolic keys")
+    return tm.constarr(MAP, ABSENT)
+
+
+def key_text(ex, st, k):
+    return ex.models.text(st, k)
+
+
+def _wrap_dict_method(name, orig):
+    def fn(ex, st, fr, self, args, kwargs):
+        k = args[0] if args else None
+        symbolic = st.get(self, "arr") is not None or (isinstance(k, VObj) and k.kind == "Seq")
+        if not symbolic:
+            return orig(ex, st, fr, self, args, kwargs)
+        ex.used_models.add("D-SEQ")
+        arr = map_arr(st, self)
+        if name == "values":
+            o = VObj("MapValues")
+            return [(st.set(o, "arr", VT(arr)), "ok", o)]
+        kt = key_text(ex, st, k)
+        cur = tm.select(arr, kt)
+        absent = tm.eq(cur, ABSENT)
+        kind = ex.models.elem_kind
+        if name == "setdefault":
+            v = args[1]
+            vt = ex.models.as_elem(ex, st, v, INT)
+            s1 = st.assume(absent).set(self, "arr", VT(tm.store(arr, kt, vt)))
+            keys = st.ghost.get("map_keys:%d" % self.oid, {})
+            s2 = st.assume(tm.not_(absent)).fork()
+            return [(s1, "ok", v), (s2, "ok", abstract_entity(s2, kind, cur))]
+        if name == "get":
+            default = args[1] if len(args) > 1 else NONE
+            s2 = st.assume(tm.not_(absent)).fork()
+            return [(st.assume(absent), "ok", default), (s2, "ok", abstract_entity(s2, kind, cur))]
+        if name == "__getitem__":
+            s2 = st.assume(tm.not_(absent)).fork()
+            return ex.raise_(st.assume(absent), "KeyError", k) + [(s2, "ok", abstract_entity(s2, kind, cur))]
+        if name == "pop":
+            s2 = st.assume(tm.not_(absent)).fork()
+            s2.set_inplace(self, "arr", VT(tm.store(arr, kt, ABSENT)))
+            res = [(s2, "ok", abstract_entity(s2, kind, cur))]
+            if len(args) > 1:
+                res.append((st.assume(absent), "ok", args[1]))
+            else:
+                res.extend(ex.raise_(st.assume(absent), "KeyError", k))
+            return res
+        raise Unsupported("dict.%s with a symbolic key" % name)
+
+    return fn
+
+
+M.dm_get = _wrap_dict_method("get", M.dm_get)
+M.dm_setdefault = _wrap_dict_method("setdefault", M.dm_setdefault)
+M.dm_pop = _wrap_dict_method("pop", M.dm_pop)
+M.dm_values = _wrap_dict_method("values", M.dm_values)
+
+_orig_value_method = MocloModels.value_method
+
+
+def _value_method(self, ex, st, v, attr):
+    if isinstance(v, VDict):
+        fn = {"get": M.dm_get, "items": M.dm_items, "values": M.dm_values, "setdefault": M.dm_setdefault,
+              "pop": M.dm_pop}.get(attr)
+        if fn is not None:
+            return VModel("dict." + attr, fn, self_val=v)
+    return _orig_value_method(self, ex, st, v, attr)
+
+
+MocloModels.value_method = _value_method
+
+
+def _custom_iter(self, ex, st, fr, node, it, ordinal):
+    """`for key in d` over a dict with symbolic Seq keys: an arbitrary not-yet-seen key per iteration.
+    ghost: seen : Array String Bool.  The loop spec's invariant may mention ctx['seen'] and ctx['key']."""
+    if not (isinstance(it, VDict) and st.get(it, "arr") is not None):
+        return None
+    spec = ex.loopspecs.get(ordinal) if ordinal is not None else None
+    if spec is None:
+        raise Unsupported("dict iteration without invariant")
+    arr = st.get(it, "arr").t
+    SEEN = tm.arr_sort(STR, BOOL)
+    tag = "%s::loop%d" % (ex.root[1] if ex.root else fr.qual, ordinal)
+    ctx = dict(pre=st, arr=arr, seen=tm.constarr(SEEN, tm.FALSE), ordinal=ordinal, dict=it)
+    for (label, inv) in spec.invariant(ex, st, ctx):
+        ex.emit("%s:init:%s" % (tag, label), st, inv, text="loop invariant holds on entry")
+    modified = ex.assigned_names(node.body) | {node.target.id}
+    sh = spec.havoc(ex, st, ctx, modified)
+    seen = tm.fresh("seen", SEEN)
+    ctx = dict(ctx, seen=seen)
+    sv = tm.V("s_", STR)
+    sh = sh.assume(tm.forall([sv], tm.implies(tm.select(seen, sv), tm.ne(tm.select(arr, sv), ABSENT))))
+    sh = sh.assume(*[t for (_, t) in spec.invariant(ex, sh, ctx)])
+    res = []
+    # exit: every key seen
+    s_exit = sh.assume(tm.forall([sv], tm.implies(tm.ne(tm.select(arr, sv), ABSENT), tm.select(seen, sv))))
+    res.append((s_exit, "ok", None))
+    # one more iteration on an unseen key
+    key = tm.fresh("key", STR)
+    s_it = sh.assume(tm.ne(tm.select(arr, key), ABSENT), tm.not_(tm.select(seen, key))).fork()
+    kobj = self.mk_seq(s_it, key)
+    for (s1, _, _) in ex.assign(node.target, kobj, s_it, fr):
+        for (s2, btag, v) in ex.block(node.body, s1, fr):
+            if btag in ("ok", "continue"):
+                cur = s2.get(it, "arr").t
+                ex.emit("%s:dict-not-resized" % tag, s2, tm.eq(cur, arr), text="the dict is not modified while iterated")
+                ctx2 = dict(ctx, seen=tm.store(seen, key, tm.TRUE), key=key)
+                for (label, inv) in spec.invariant(ex, s2, ctx2):
+                    ex.emit("%s:preserve:%s" % (tag, label), s2, inv, text="loop invariant preserved")
+            elif btag == "break":
+                res.append((s2, "ok", None))
+            else:
+                res.append((s2, btag, v))
+    return res
+
+
+MocloModels.custom_iter = _custom_iter
